@@ -1,5 +1,5 @@
 /- Property C14: the property theorems (and nothing else). -/
-import Frugal.Decode
+import Frugal.Proofs.DecodeRefine
 import Frugal.Props.Instances
 namespace Frugal.C14
 open Frugal
@@ -7,4 +7,22 @@ open Frugal
 theorem empty_never_views (isBin nocopy : Bool) (total : Nat) (r : Bytes) :
     decodeStr isBin nocopy total (0 :: 0 :: 0 :: 0 :: r) = .ok (if isBin then .bin false [] else .str [], r) := by
   simp [decodeStr, rd32]
+
+/-- a non-empty nocopy value is a view of exactly its bytes: the offset is where the value's bytes
+    start in the input (the 4-byte length prefix is skipped), the length is the value's, no spare
+    capacity is modelled (cap = len) -/
+theorem nocopy_views_value_bytes (isBin : Bool) (total : Nat) (s r : Bytes) (hs : s ≠ [])
+    (hw : s.length < 2147483648) :
+    decodeStr isBin true total (ser (.str s) ++ r) =
+      .ok (if isBin then .vbin (total - (s.length + r.length)) s else .vstr (total - (s.length + r.length)) s, r) := by
+  rw [decodeStr_ser isBin true total s r hw]
+  have : ¬ s.length = 0 := fun h => hs (List.length_eq_zero_iff.mp h)
+  simp [readStr, this, Outcome.mapv]
+
+/-- without the option the value is copied: never a view -/
+theorem copy_never_views (isBin : Bool) (total : Nat) (s r : Bytes) (hw : s.length < 2147483648) :
+    decodeStr isBin false total (ser (.str s) ++ r) =
+      .ok (if s.length = 0 then (if isBin then .bin false [] else .str []) else (if isBin then .bin false s else .str s), r) := by
+  rw [decodeStr_ser isBin false total s r hw]
+  by_cases h : s.length = 0 <;> simp [readStr, h, Outcome.mapv]
 end Frugal.C14
